@@ -43,11 +43,11 @@ fn plan(tier: Tier) -> Plan {
             widths: vec![Width::W8, Width::W64],
         },
         Tier::Thorough => Plan {
-            a_len: 8,
+            a_len: 7,
             s_k: 2,
             depth: 2,
             step_cap: 20_000,
-            ladder_top: 1_000_000,
+            ladder_top: 200_000,
             silent_window_ms: 150,
             silent_budget: 2_000,
             widths: Width::ALL.to_vec(),
